@@ -100,6 +100,7 @@ func c02(r *core.Run) {
 	r.Rule("N2", "wake-up: every push on S.workqueue is followed on all paths by Signal/Broadcast on the worker condition; Cond.Wait sits in a loop that re-checks the queue", 2)
 	r.Rule("O1", "single sequential listener: request handling is called only from the listener loop, the listener only from serve by a plain call on the channel stored as the in-channel, and there is no go statement on the call path serve ->* enqueue", 4)
 	r.Rule("H1", "no orphaned work items across restarts (shared with C01.H1): the group registry is re-created before the workers of a run start and the service is stopped only after all workers exited; otherwise an entry left by a Shutdown with queued work survives, later submissions for that group are appended to a work item no worker owns and never run", 2)
+	r.Rule("H2", "an accepted callback has a worker (shared with C03.S2): every worker is started before the service is published as started - the state from which enqueue accepts callbacks; a callback accepted earlier than that sits in the queue with nobody to run it (an OnServe callback waiting for its own With callback never returns)", 1)
 	r.Rule("V1", "each queued callback handles its own message (shared with C15.C1 / C16.V1): no closure created in a loop and handed to the queue captures a variable the loop re-assigns - with the module's go directive a shared loop variable makes every queued closure see the latest message, so one is handled several times and another never", 1)
 	r.Rule("A2", "order across producers: the lookup of a group's pending work item and the register/append that follows are one critical section (same obligations as C01.A2): otherwise two producers can create two work items for one group and later submissions overtake earlier ones", 4)
 	r.Rule("W1", "With: Resource returns a non-nil error exactly on the no-handler edge; With returns that error without reaching enqueue and otherwise reaches enqueue exactly once and returns nil", 4)
@@ -303,6 +304,7 @@ func c02(r *core.Run) {
 	loopCaptureRule(r, "V1", "all closures queued from this loop see the value of the latest iteration - one submission runs several times, another never")
 	// ---- H1 (shared with C01) ---------------------------------------------
 	c01Restart(r, "H1", a, root)
+	c03WorkersBeforeStarted(r, "H2", a, root)
 	// ---- W1 --------------------------------------------------------------
 	c02With(r, a, root)
 }
